@@ -105,6 +105,33 @@ def _hb_representation(hs, l):
     return np.hstack(cols)
 
 
+def _thb_to_hb_by_definition(hs):
+    """THB -> HB coefficient transform from the DEFINITION of truncation, independent of represent_fine / truncate_one_level / thb_to_hb:
+    a function of level a is carried to level a+1, a+2, ... by tensor-product knot insertion, and on every level k its coefficients with
+    respect to the level-k functions that are active or deactivated (i.e. lie in the level-k space) are dropped.  T solves I_hb T = I_thb
+    on the finest level (least squares; I_hb has full column rank, the residual is asserted to vanish)."""
+    L = hs.numlevels
+    step = [_tp_prolong(hs, k, k + 1) for k in range(L - 1)]
+    shp = [tuple(kv.numdofs for kv in hs.knotvectors(k)) for k in range(L)]
+    drop = [np.array(sorted(int(np.ravel_multi_index(f, shp[k])) for f in (set(hs.actfun[k]) | set(hs.deactfun[k]))), dtype=int) for k in range(L)]
+    hb, thb = [], []
+    for a in range(L):
+        for f in sorted(hs.actfun[a]):
+            e = np.zeros(int(np.prod(shp[a])))
+            e[np.ravel_multi_index(f, shp[a])] = 1.0
+            ch, ct = e, e
+            for k in range(a + 1, L):
+                ch = step[k - 1] @ ch
+                ct = step[k - 1] @ ct
+                ct[drop[k]] = 0.0
+            hb.append(ch)
+            thb.append(ct)
+    I_hb, I_thb = np.array(hb).T, np.array(thb).T
+    T, *_ = np.linalg.lstsq(I_hb, I_thb, rcond=None)
+    assert np.abs(I_hb @ T - I_thb).max() <= 1e-10, 'oracle: truncated functions outside the span of the hierarchical basis'
+    return T
+
+
 def _reference(hs, vf, args, geo, arity=2):
     from pyiga import assemble
     L = hs.numlevels
@@ -145,6 +172,10 @@ def chk_matrix(c):
     hs.truncate = False
     ref = _reference(hs, vf, args, geo)
     T = hs.thb_to_hb().toarray()
+    if int(np.prod([kv.numdofs for kv in hs.knotvectors(hs.numlevels - 1)])) <= 3000:
+        Td = _thb_to_hb_by_definition(hs)          # the THB reference does not rest on the library's own transform
+        _close(T, Td, 'thb_to_hb() vs the definition of truncation', tol=1e-10)
+        T = Td
     asm_args = dict(args, geo=geo)
     for trunc in (False, True):
         hs.truncate = trunc
@@ -174,6 +205,8 @@ def chk_functional(c):
     hs.truncate = False
     ref = _reference(hs, vf, args, geo, arity=1)
     T = hs.thb_to_hb().toarray()
+    if int(np.prod([kv.numdofs for kv in hs.knotvectors(hs.numlevels - 1)])) <= 3000:
+        T = _thb_to_hb_by_definition(hs)
     for trunc in (False, True):
         hs.truncate = trunc
         hd = hierarchical.HDiscretization(hs, None, dict(args, geo=geo))
@@ -273,6 +306,18 @@ def generate(tier, rng):
         yield 'matrix', {'spec': spec, 'form': forms[j % 2], 'geo': ['unit', 'bump'][j % 2]}
         spec1 = {'dim': 1, 'n': 4, 'p': p, 'disparity': disp, 'history': [{'0': [[2], [3]]}, {'1': [[4], [5]]}, {'2': [[8], [9]]}]}
         yield 'matrix', {'spec': spec1, 'form': forms[(j + 1) % 4], 'geo': 'bump'}
+    # THB with a finite disparity >= 2 on 3+ levels: an interior block refined twice, so that active functions of level k-1 still overlap
+    # active functions of level k+1 (the truncation of a level-(k-1) function then involves level k+1 directly)
+    for j, (p, disp) in enumerate(((2, 2), (3, 2), (2, 3), (1, 2))):
+        spec1 = {'dim': 1, 'n': 6, 'p': p, 'disparity': disp, 'truncate': True, 'history': [{'0': [[1], [2], [3], [4]]}, {'1': [[4], [5], [6], [7]]}] + ([{'2': [[10], [11], [12], [13]]}] if disp == 3 else [])}
+        yield 'matrix', {'spec': spec1, 'form': forms[j % 4], 'geo': 'bump'}
+        yield 'functional', {'spec': spec1, 'functional': ['l2', 'grad'][j % 2], 'geo': 'bump'}
+        if p <= 2:
+            blk0 = [[y, x] for y in range(1, 3) for x in range(1, 3)]
+            blk1 = [[y, x] for y in range(3, 5) for x in range(3, 5)]
+            spec2 = {'dim': 2, 'n': 4, 'p': p, 'disparity': disp, 'truncate': True, 'history': [{'0': blk0}, {'1': blk1}]}
+            yield 'matrix', {'spec': spec2, 'form': forms[(j + 1) % 2], 'geo': ['unit', 'bump'][j % 2]}
+            yield 'functional', {'spec': spec2, 'functional': 'l2', 'geo': 'unit'}
     # simultaneous marks on several levels under a finite disparity: the finest marks lie inside an already refined region (their
     # admissibility neighbourhood is empty), the coarser ones at the rim of their level's region (they force a refinement one level below);
     # every marked level needs its own admissibility pass, otherwise the interlevel blocks of the matrix reach beyond the assembled window
